@@ -2,7 +2,7 @@
    Model: Rt/JsonEncode.v run on the hidden __<Op>Input struct and the input-object structs that
    Gen/Convert.v (convert_arguments) produces. *)
 From Verif Require Import Base.Str Gen.Consts Gen.Gql Gen.Directive Gen.Convert Rt.JsonDecode Rt.JsonEncode
-  Proofs.JsonProofs Proofs.EncodeProofs.
+  Proofs.JsonProofs Proofs.EncodeProofs Proofs.ArgsProofs.
 From Coq Require Import ZArith.
 
 (* the variables object has a key only for declared variables, each at most once *)
@@ -74,3 +74,24 @@ Theorem C04_nil_slice_of_custom_marshaled_refuted :
   forall k leaf, enc_levels (S k) leaf VNilSlice = Ok (JArr []).
 Proof. reflexivity. Qed.
 Print Assumptions C04_nil_slice_of_custom_marshaled_refuted.
+
+(* the converter side of "a key only for declared variables": the hidden __<Op>Input struct that
+   convertArguments builds has exactly one field per declared variable, in declaration order,
+   whose JSON name and GraphQL name are the variable's name (with C04_keys_only_for_declared_variables:
+   the variables object has keys only for declared variables) *)
+Theorem C04_one_struct_field_per_declared_variable :
+  forall sch cfg frags srcs o Q tm n tm',
+    convert_arguments sch cfg frags srcs o Q tm = Ok (Some n, tm') ->
+    n = b "__" ++ op_name o ++ b "Input"
+    /\ exists fields tm1,
+         map gf_json fields = map vd_name (op_vars o)
+         /\ map gf_gql fields = map vd_name (op_vars o)
+         /\ Forall (fun v => mem_str (vd_name v) go_keywords = false) (op_vars o)
+         /\ add_type tm1 n (DStruct n fields [] true) = Ok (GStruct n, tm').
+Proof. exact input_struct_has_one_field_per_variable. Qed.
+Print Assumptions C04_one_struct_field_per_declared_variable.
+
+Theorem C04_no_variables_no_struct :
+  forall sch cfg frags srcs o Q tm, op_vars o = [] -> convert_arguments sch cfg frags srcs o Q tm = Ok (None, tm).
+Proof. exact no_variables_no_struct. Qed.
+Print Assumptions C04_no_variables_no_struct.
